@@ -1,5 +1,6 @@
 import HC.Proofs.BlockGrow
 import HC.Proofs.BlockNew
+import HC.Proofs.BlockNewOffset
 /-!
 The core-level half of `BlockGrow`, stated for **any** accepted proof that carries a block and an upgrade (`Accepted`: what
 `verify_proof` returned and what it is known to satisfy), and its instance for the usual download step "the next block
@@ -263,37 +264,51 @@ theorem ok_of_accepted (C : Crypto) (hC : HashWF C) (hT : TreeWF C) (bs : Array 
 def honestNextBlock (C : Crypto) (bs : Array Bytes) (fork m n : Nat) (a b : List (Nat × Nat)) (k : Nat) (sig : Bytes) : Proof :=
   ⟨fork, some ⟨m, bs.getD m [], Complete.sibPath C bs 0 m k⟩, none, none, some ⟨m, n - m, (a ++ b).map (fun p => nodeAt C bs p.1 p.2), [], sig⟩⟩
 
-/-- **the next block + upgrade, at core level**: the replica of length `m` applies the writer's answer to "block `m` and
-    upgrade me to `n`"; the step is an exchange step that keeps both invariants, from length `m` to length `n` with block `m`
-    held -/
-theorem nextblock_ok (C : Crypto) (hC : HashWF C) (hT : TreeWF C) (bs : Array Bytes) (m n : Nat) (c : Core) (d : Disk) (held : Nat → Bool)
+/-- the honest answer to "block `i` of the new part and upgrade me from `m` to `n`" -/
+def honestNewBlock (C : Crypto) (bs : Array Bytes) (fork i m n : Nat) (a b : List (Nat × Nat)) (k : Nat) (sig : Bytes) : Proof :=
+  ⟨fork, some ⟨i, bs.getD i [], Complete.sibPath C bs 0 i k⟩, none, none, some ⟨m, n - m, (a ++ b).map (fun p => nodeAt C bs p.1 p.2), [], sig⟩⟩
+
+/-- **a block of the new part + upgrade, at core level**: the replica of length `m` applies the writer's answer to "block `i`
+    (`m ≤ i < n`) and upgrade me to `n`"; the step is an exchange step that keeps both invariants, from length `m` to
+    length `n` with block `i` held.  The byte offset of the block is computed under the changeset's node list — the
+    block's path followed by the upgrade's nodes — and its new roots (`BlockNewOffset.offset_new_block`). -/
+theorem newblock_ok (C : Crypto) (hC : HashWF C) (hT : TreeWF C) (bs : Array Bytes) (m n : Nat) (c : Core) (d : Disk) (held : Nat → Bool)
     (h : RP C bs m c d held) (hm0 : 0 < m) (hmn : m < n) (hn : n ≤ bs.size) (us : List (Nat × Nat))
     (hup : Up m 0 (rootsStack n).reverse us) (sig : Bytes) (hsl : sig.length = 64)
-    (hver : C.verify c.publicKey (signableAt C bs n c.tree.fork) sig = true)
-    (a b : List (Nat × Nat)) (k : Nat) (hsplit : us = a ++ (k, m / 2 ^ k) :: b) :
-    ∃ c1 e j0, StepOK C bs m n c c1 d held (fun j => held j || j == m) (c.verifyAndApply C d (honestNextBlock C bs c.tree.fork m n a b k sig)) e j0 := by
+    (hver : C.verify c.publicKey (signableAt C bs n c.tree.fork) sig = true) (i : Nat) (hmi : m ≤ i) (hi : i < n)
+    (a b : List (Nat × Nat)) (k : Nat) (hsplit : us = a ++ (k, i / 2 ^ k) :: b) :
+    ∃ c1 e j0, StepOK C bs m n c c1 d held (fun j => held j || j == i) (c.verifyAndApply C d (honestNewBlock C bs c.tree.fork i m n a b k sig)) e j0 := by
   have hr := h.rep
   have hN : n < 2 ^ 64 := by have := hr.small.1; omega
-  obtain ⟨cs', _, _, e4, e5, e6, e7, e8, e9, e10, e11, e12, e13, e14, e15, e16, e17, e18⟩ :=
-    BlockNew.honest_new_block_upgrade_accepted_at C hC bs m n c d held hr hm0 hmn hn us hup sig hsl hver m a b k hsplit
+  obtain ⟨cs', _, _, e4, e5, e6, e7, e8, e9, e10, e11, e12, e13, e14, e15, e16, e17, e18, csg, hcs, hinvg, hRin⟩ :=
+    BlockNew.honest_new_block_upgrade_accepted_at C hC bs m n c d held hr hm0 hmn hn us hup sig hsl hver i a b k hsplit
   have hk64 : k < 64 := by
-    have hmem : (k, m / 2 ^ k) ∈ us := by rw [hsplit]; simp
+    have hmem : (k, i / 2 ^ k) ∈ us := by rw [hsplit]; simp
     have hb := up_bound m n _ 0 us (cover_roots n) hup _ hmem
     simp only at hb
-    have h1 : 2 ^ k ≤ (m / 2 ^ k + 1) * 2 ^ k := Nat.le_mul_of_pos_left _ (Nat.succ_pos _)
+    have h1 : 2 ^ k ≤ (i / 2 ^ k + 1) * 2 ^ k := Nat.le_mul_of_pos_left _ (Nat.succ_pos _)
     have h2 : 2 ^ k < 2 ^ 64 := by omega
     exact (Nat.pow_lt_pow_iff_right (by decide : 1 < 2)).mp h2
   have hul := up_length m n hm0 hN (rootsStack n).reverse 0 us (cover_roots n) hup
   have hrl := rootsStack_length_log 64 n hN
   rw [List.length_reverse] at hul
-  have hacc : Accepted C bs n c d (honestNextBlock C bs c.tree.fork m n a b k sig) m cs' sig (64 + 2 * us.length + (2 * k + 1)) :=
+  have hoff : c.tree.byteOffsetInChangeset d.tree i cs' = .ok (psum bs i) := by
+    rw [hcs]
+    exact BlockNewOffset.offset_new_block C hC bs m n c d held hr hn csg hinvg i k hmi hRin
+  have hacc : Accepted C bs n c d (honestNewBlock C bs c.tree.fork i m n a b k sig) i cs' sig (64 + 2 * us.length + (2 * k + 1)) :=
     { fork := rfl, block := ⟨_, rfl⟩, verified := e4, closed := e13, roots := e5, length := e6, bytes := e7, nodesRef := e12, upgraded := e8,
       signature := e9, csfork := e10, commitable := e11, ancestors := e15, origLength := e16, hash := e17,
-      offset := by
-        simp only [Tree.byteOffsetInChangeset, hr.closed.sparse.length, ite_true]
-        rw [hr.bytes],
-      leaf := e14, count := e18 }
-  exact ok_of_accepted C hC hT bs m n c d held h (Nat.le_of_lt hmn) hn _ m hmn cs' sig hsl _ (by omega) hacc
+      offset := hoff, leaf := e14, count := e18 }
+  exact ok_of_accepted C hC hT bs m n c d held h (Nat.le_of_lt hmn) hn _ i hi cs' sig hsl _ (by omega) hacc
+
+/-- the next block + upgrade (`i = m`): the live-download step -/
+theorem nextblock_ok (C : Crypto) (hC : HashWF C) (hT : TreeWF C) (bs : Array Bytes) (m n : Nat) (c : Core) (d : Disk) (held : Nat → Bool)
+    (h : RP C bs m c d held) (hm0 : 0 < m) (hmn : m < n) (hn : n ≤ bs.size) (us : List (Nat × Nat))
+    (hup : Up m 0 (rootsStack n).reverse us) (sig : Bytes) (hsl : sig.length = 64)
+    (hver : C.verify c.publicKey (signableAt C bs n c.tree.fork) sig = true)
+    (a b : List (Nat × Nat)) (k : Nat) (hsplit : us = a ++ (k, m / 2 ^ k) :: b) :
+    ∃ c1 e j0, StepOK C bs m n c c1 d held (fun j => held j || j == m) (c.verifyAndApply C d (honestNextBlock C bs c.tree.fork m n a b k sig)) e j0 :=
+  newblock_ok C hC hT bs m n c d held h hm0 hmn hn us hup sig hsl hver m (Nat.le_refl _) hmn a b k hsplit
 
 /-- the split exists: block `m` lies under exactly one node of the honest position list -/
 theorem nextblock_split (m n : Nat) (hmn : m < n) (us : List (Nat × Nat)) (hup : Up m 0 (rootsStack n).reverse us) :
